@@ -5,6 +5,8 @@ import PromqlVerif.Table
 import PromqlVerif.Acc
 import PromqlVerif.Coalesce
 import PromqlVerif.Dist
+import PromqlVerif.Hints
+import PromqlVerif.Slices
 open PromqlVerif
 
 structure DState where
@@ -58,6 +60,7 @@ def evalView (s : DState) (view : String) : String :=
         | some (c, w) => if hasTie c w.grid e || joinTie c true e then "1" else "0"
         | none => "bad-op"
       | "siteok" => if siteOk e then "1" else "0"
+      | "hints" => String.intercalate ";" ((engHints Hint.empty e).map showHint)
       | v =>
         if v.startsWith "distplan:" then
           match (v.drop 9).toString.toNat? with
@@ -97,6 +100,55 @@ def kernelView (s : DState) (what : String) (args : List String) : String :=
       "it=" ++ String.intercalate "," (it.map sh) ++ " spec=" ++ String.intercalate "," (sp.map sh)
     | _, _, _, _ => "bad-op"
   | _, _, _ => "bad-op"
+
+def parseInts (s : String) : Option (List Int) :=
+  if s == "-" || s.isEmpty then some [] else (s.splitOn ",").mapM String.toInt?
+
+def showInts (xs : List Int) : String :=
+  if xs.isEmpty then "-" else String.intercalate "," (xs.map toString)
+
+/-- `Slices.lean` against real Go slices: heap `a,b;c,d`, watched slices `arr:off:len:cap;..`,
+operations `a:k:xs` (append), `c:k:xs` (append through the capacity-capped slice), `y:k` (copy);
+answers what every watched slice reads afterwards -/
+def slicesView (args : List String) : String :=
+  match args with
+  | [heapS, wS, opsS] =>
+    let heap? := (heapS.splitOn ";").mapM parseInts
+    let ws? := (wS.splitOn ";").mapM fun w =>
+      match (w.splitOn ":").mapM String.toNat? with
+      | some [a, o, l, c] => some ({ arr := a, off := o, len := l, cap := c } : Mem.Slice)
+      | _ => none
+    match heap?, ws? with
+    | some heap, some ws =>
+      let step := fun (st : Option (Mem.Heap Int × List Mem.Slice)) (op : String) =>
+        match st with
+        | none => none
+        | some (h, ws) =>
+          match op.splitOn ":" with
+          | ["a", k, xs] =>
+            match k.toNat?, parseInts xs with
+            | some k, some xs =>
+              let r := (ws.getD k default).append h xs
+              some (r.1, ws.set k r.2)
+            | _, _ => none
+          | ["c", k, xs] =>
+            match k.toNat?, parseInts xs with
+            | some k, some xs =>
+              let r := (ws.getD k default).capped.append h xs
+              some (r.1, ws.set k r.2)
+            | _, _ => none
+          | ["y", k] =>
+            match k.toNat? with
+            | some k =>
+              let r := (ws.getD k default).copy h
+              some (r.1, ws.set k r.2)
+            | none => none
+          | _ => none
+      match (opsS.splitOn ";").foldl step (some (heap, ws)) with
+      | some (h, ws) => String.intercalate "|" (ws.map fun w => showInts (w.read h))
+      | none => "bad-op"
+    | _, _ => "bad-op"
+  | _ => "bad-op"
 
 /-- `id:bits,id:bits` -/
 def parseIdVec (s : String) : Option (IdVec Float) :=
@@ -244,6 +296,7 @@ def stepLine (s : DState) (line : String) : DState × Option String :=
   | "kernel" :: "acc" :: args => (s, some ("kernel " ++ accView args))
   | "kernel" :: "coalesce" :: args => (s, some ("kernel " ++ coalesceView args))
   | "kernel" :: "table" :: args => (s, some ("kernel " ++ tableView args))
+  | "kernel" :: "slices" :: args => (s, some ("kernel " ++ slicesView args))
   | "kernel" :: what :: args => (s, some ("kernel " ++ (if s.bad then "bad-op" else kernelView s what args)))
   | ["eval", view] => (s, some (view ++ " " ++ evalView s view))
   | ["end"] => ({}, some "end")
